@@ -496,6 +496,24 @@ Definition gvar_ok (g : gvar) : bool :=
 Definition poolfact_ok (p : poolfact) : bool :=
   negb (pf_use_after_put p) && negb (pf_escapes p) && negb (pf_no_put p).
 
+(* the state that outlives a call is exactly the state this file accounts for: the recycled
+   structs have these fields and no others (a new field in a pooled object is new residue that the
+   erasure argument above knows nothing about) *)
+Definition expected_poolfields : list (string * string) :=
+  [("decodeState", "data"); ("decodeState", "disallowUnknownFields"); ("decodeState", "errorContext");
+   ("decodeState", "lastKeys"); ("decodeState", "off"); ("decodeState", "opcode"); ("decodeState", "savedError");
+   ("decodeState", "scan"); ("decodeState", "useNumber");
+   ("encodeState", "bytes.Buffer"); ("encodeState", "ptrLevel"); ("encodeState", "ptrSeen"); ("encodeState", "scratch");
+   ("scanner", "bytes"); ("scanner", "endTop"); ("scanner", "err"); ("scanner", "parseState"); ("scanner", "step")].
+
+Fixpoint fields_eqb (a b : list (string * string)) : bool :=
+  match a, b with
+  | [], [] => true
+  | (x1, y1) :: a', (x2, y2) :: b' => String.eqb x1 x2 && String.eqb y1 y2 && fields_eqb a' b'
+  | _, _ => false
+  end.
+
 Definition discipline_ok : bool :=
   forallb gvar_ok gvars && forallb poolfact_ok poolfacts &&
-  match pwrites with [] => true | _ => false end && match gostmts with [] => true | _ => false end.
+  match pwrites with [] => true | _ => false end && match gostmts with [] => true | _ => false end &&
+  fields_eqb poolfields expected_poolfields.
